@@ -336,19 +336,20 @@ def signature(c, r):
 
 def shrink_candidates(inp, grp):
     import copy
-    if grp == "x":
-        steps = inp.get("steps") or []
-        for k in range(len(steps)):
-            cand = copy.deepcopy(inp)
-            del cand["steps"][k]
-            yield cand
-        return
-    if grp == "etcd":
-        ops = inp.get("ops") or []
-        for k in range(len(ops)):
-            cand = copy.deepcopy(inp)
-            del cand["ops"][k]
-            yield cand
+    if grp in ("x", "etcd"):
+        key = "steps" if grp == "x" else "ops"
+        xs = inp.get(key) or []
+        n = len(xs)
+        k = max(1, n // 2)
+        while k >= 1:  # drop chunks (halves, quarters, ...) before single steps
+            for st in range(0, n, k):
+                cand = copy.deepcopy(inp)
+                del cand[key][st:st + k]
+                if cand[key]:
+                    yield cand
+            if k == 1:
+                break
+            k //= 2
         return
     # drop methods that are not needed, then headers / query parameters / scopes
     for m in ("headers", "jwt", "basic"):
